@@ -5,8 +5,16 @@ Streams (all from ctx.rng):
                     Molecule.from_data / to_file+from_file; writer text also diffed against the Lean writer model (M2)
   B  layout         layout-preserving rewrites of the writer's texts -> identical from_string record
   C  totality       byte-level mutations of valid texts + grammar-alphabet token soups under xyz, xyz+, psi4
-  M1 correspondence every text of A/B/C (plus keyword/efp spellings) through the Lean line-filter model, compared with
+  S  separators     fixed single-blank texts with NON-default charge / multiplicity (charged, open-shell, several fragments
+                    with distinct charges, efp lines) x every [\t ,]+ spelling on every separator-bearing line kind (xyz count line,
+                    xyz+ chg/mult(+name) line, CHGMULT lines, atom lines, efp lines; trailing run where the grammar allows one)
+                    -> identical from_string record and Molecule hash (kind oracle:layout_separators)
+  M1 correspondence every text of A/B/C/S (plus keyword/efp spellings) through the Lean line-filter model, compared with
                     the implementation's outcome class and its `return_processed=True` dictionary
+  E2E correspondence the same texts through Driver/C07b.lean (text layer + from_input_arrays mapping + from_arrays with the C06
+                    reconciler and the C05 stage) against from_string(...)['qm'] field by field and Molecule.from_data's
+                    fields; every stream-A writer call as validated record + printed coordinates through writeMol + readMol.
+                    The fixed keyword / separator texts are sent to both drivers first (never cut by the case budget).
 """
 from __future__ import annotations
 
@@ -23,7 +31,8 @@ import numpy as np
 from common import Ctx, Finding, Outcome, err_class
 
 PROPERTY = "C07"
-LEAN_TARGETS = ["QcelVerif.Props.C07", "QcelVerif.Lemmas.MolTextJoin", "QcelVerif.Props.C07Text", "QcelVerif.Driver.C07"]
+LEAN_TARGETS = ["QcelVerif.Props.C07", "QcelVerif.Lemmas.MolTextJoin", "QcelVerif.Props.C07Text", "QcelVerif.Driver.C07",
+                "QcelVerif.Model.TextToMol", "QcelVerif.Driver.C07b", "QcelVerif.Props.C07E2E", "QcelVerif.Props.C07Hash"]
 DRIVER = "QcelVerif/Driver/C07.lean"
 THEOREMS = [
     ("QcelVerif.MolText.tokens_roundtrip", "splitting the join of non-empty separator-free tokens (any non-empty [\\t ,]+ runs between them) returns the tokens"),
@@ -61,12 +70,32 @@ THEOREMS = [
     ("QcelVerif.MolText.xyz_text_layout", "the same for strict xyz and projectXyz r"),
     ("QcelVerif.MolText.read_write_psi4_text_comments", "the written psi4 text with an arbitrary '#comment' after any of its lines and arbitrary whitespace around it still reads back as projectPsi4 r"),
     ("QcelVerif.MolText.psi4_insert_blank_line", "inserting a blank or comment-only line between two lines of a laid-out psi4 text does not change what is read"),
+    # ---- end to end (Model/TextToMol.lean: text layer -> from_input_arrays mapping -> from_arrays (C04) with the C06 reconciler and the C05 stage)
+    ("QcelVerif.TextToMol.read_text_psi4", "composed reader on the psi4 TEXT written for any record meeting RecOk = validation (from_input_arrays + from_arrays) of exactly the fields the psi4 text carries"),
+    ("QcelVerif.TextToMol.read_text_xyzplus", "the same for the xyz text read as xyz+ (any title text without '#'/newline)"),
+    ("QcelVerif.TextToMol.read_text_xyz", "the same for strict xyz (Angstrom, ghost-free)"),
+    ("QcelVerif.TextToMol.fromArrays_textInp", "assembly: for a validated record r (fixed point of from_arrays) and a text input whose tokens alone re-derive r's atoms, whose coordinates pass the closeness screen, whose fragment arguments are accepted with r's separators and whose charge stage returns r's values, from_arrays returns r with the text's unit and coordinates (name/comment/connectivity/input_units_to_au dropped)"),
+    ("QcelVerif.TextToMol.read_write_validated_psi4_partial", "PARTIAL (a): a validated record written as psi4 text and read through the whole composed reader comes back with the printed coordinates and the text's unit, every other carried field unchanged - hypotheses: text carries the record's integers/separators, printed coordinates pass the 0.1 screen in the text's unit, each written nucleus token alone is answered with the record's atom (hlab, not proved), charge stage result (hcm)"),
+    ("QcelVerif.TextToMol.read_write_validated_psi4_multi_partial", "PARTIAL (a), psi4 with several fragments: hcm discharged (the text states exactly the specification the record was validated with); only hlab remains"),
+    ("QcelVerif.TextToMol.read_write_validated_psi4_single_partial", "PARTIAL (a), psi4 with one fragment: hcm discharged by vfc_single_totals_absent; only hlab remains"),
+    ("QcelVerif.TextToMol.vfc_single_totals_absent", "C05 on a single-fragment psi4 text: validate_and_fill_chgmult with the fragment's charge/multiplicity given and the totals absent returns what it returns with the totals given as well"),
+    ("QcelVerif.TextToMol.read_write_validated_xyzplus_partial", "PARTIAL (a), xyz+: single-fragment record without user labels comes back with printed coordinates, unit, total charge/multiplicity, frame flags off - hlab and the C05 step (totals given, fragment values absent) are hypotheses"),
+    ("QcelVerif.TextToMol.stages_of_fix", "a fixed point of from_arrays passes its own fragment stage and charge stage with its own values (what from_arrays_idempotent's conclusion provides to the text round trip)"),
+    ("QcelVerif.TextToMol.readMol_documented", "(c) every outcome of the composed reader is a validated record, the empty record, MoleculeFormatError, ValidationError, NotAnElementError, or an explicit out-of-scope / model-gap declaration - a statement about the model (by its type); that from_string matches it is the correspondence"),
+    ("QcelVerif.TextToMol.readMol_gap_only_c06_other", "(c) the model-gap outcome can only arise from the C06 model's own 'other' class (table lookup that cannot happen on the shipped table); the C05 'malformed' class is excluded by proof"),
+    ("QcelVerif.TextToMol.readMol_formatError_iff", "(c) the composed reader raises MoleculeFormatError exactly when the text layer does"),
+    ("QcelVerif.TextToMol.roundtrip_same_canon", "(b) for a record without connectivity: if every coordinate read back has the same 8-decimal float_prep image [bohr] as the stored one, the molecule read back has the same C11 canonical hash fields, whatever the text's unit/name/comment/frame flags"),
+    ("QcelVerif.TextToMol.roundtrip_same_hash", "(b) hence the same hash (C11 hash_of_canon)"),
+    ("QcelVerif.TextToMol.printed_same_prep", "PARTIAL (b): coordinates read back within 1e-10 bohr (>= 10 printed decimals) of stored ones that are not within 0.02e-8 of a rounding boundary have the same float_prep image (C11 round_stable); 8 and 9 decimals need the exact margin (oracle only)"),
 ]
 TRUSTED_BASE = [
     "Lean 4.33 kernel; axioms per theorem audited on every run (subset of propext, Classical.choice, Quot.sound)",
     "hand-written models Model/MolText.lean: M1 (filter_comments, strip, line filters of from_string.py with hand-written recognisers for NUMBER/NUCLEUS/CHGMULT/keywords) and M2 (xyz/xyz+/psi4 writers of to_string.py as token lines + token-line reader); both tied to /repo by differential correspondence only",
     "CPython float formatting '{:.{prec}f}' and float() parsing are parameters (assumed correctly rounded): printed coordinate strings are supplied to the writer model, exact decimal values returned by the reader model are compared with the implementation's doubles via fractions.Fraction",
-    "validation after the text layer (from_input_arrays: nucleus reconciliation, charge/multiplicity completion, fragments) is not modelled here (C04/C05/C06); end results are checked by the Python oracle only",
+    "validation after the text layer IS modelled: Model/TextToMol.lean composes M1 with from_input_arrays' field mapping (hand-written from from_string.py:264-290 / from_arrays.py:15-133) and the existing from_arrays model (C04) with the C06 model of reconcile_nucleus over the periodic table regenerated from /repo and the C05 model of validate_and_fill_chgmult; the composition is tied to /repo by differential correspondence (Driver/C07b.lean: every text of streams A/B/C through readMol against from_string(...)['qm'] field by field - geometry and masses as exact rationals of the doubles - and against Molecule.from_data's fields; every writer call through writeMol + readMol)",
+    "float(token) is the parameter rd (driver: Nucleus.rd64, round-to-nearest-even binary64, the same function the C04b/C06 drivers use); to_string's unit conversion and '{:.{prec}f}' stay parameters of the writer (printed coordinates supplied)",
+    "the closeness screen is evaluated exactly in the model and in floating point by numpy: texts with an atom pair within 1e-12 of the squared threshold are not compared (counted as E2E:hairline_not_compared)",
+    "Molecule.from_data geometry is compared with the model's coordinates (x Angstrom->bohr factor) under the 8-decimal construction rounding and float_prep's zero band (C11's model), not bit-exactly; all other Molecule fields exactly",
     "harness/c07.py generators, layout rewriter and the Python oracle",
 ]
 ASSUMPTIONS = [
@@ -76,6 +105,8 @@ ASSUMPTIONS = [
     "auto-detection (dtype=None) is exercised on writer output and layout rewrites only; psi4+ (zmatrix) is not exercised",
     "texts without any atom: bare from_string returns {} (documented missing_enabled_return_qm='none') - reported under its own finding kind (known finding); the Molecule.from_data route must raise a documented error",
     "efp lines: the model covers the single-line `efp file x y z a b c` form; `efp file` + three point lines is declared out of model scope",
+    "composed reader (readMol): additionally out of scope (answer `oos`, counted) are non-integer charges, charges/multiplicities beyond 1e9 (from_arrays/chgmult models are integer models) and numbers with |x| >= 2^1023; with efp fragments present only the 'qm' part is compared (fix_com/fix_orientation/fix_symmetry forced as from_input_arrays does)",
+    "theorem (a) is about records whose atoms are re-derived from the written token alone (default isotopes: no text format carries masses or mass numbers) and whose printed coordinates pass the 0.1 closeness screen in the text's unit (known finding C07-tooclose-in-text-units otherwise)",
 ]
 RULE = (
     "A: validated molecules of 1-12 atoms (whole periodic table weighted to H-Ar, ghosts, user labels '_word'/'digits', 1-4 contiguous "
@@ -84,16 +115,29 @@ RULE = (
     "blanks, [\\t ,]+ separators, symbol/keyword/Gh case, +/leading-zero/trailing-zero/exponent(E,e,D,d) respellings of the same decimal, "
     "'#' comments); C: 1-3 byte/line/token mutations of valid texts and line-structured token soups over the grammar alphabet, each under "
     "xyz, xyz+, psi4. A case is distinct by (stream, dtype, text) and non-trivial when the text differs from plain writer output or the "
-    "molecule has ghosts/labels/>1 fragment/non-zero charge."
+    "molecule has ghosts/labels/>1 fragment/non-zero charge. End-to-end stream: every (dtype, text) of A/B/C (same budget as M1) is also "
+    "sent to Driver/C07b.lean (`R` lines) and every stream-A writer call as a validated record + printed coordinates (`RW` lines: "
+    "writeMol then readMol). S: 11 fixed single-blank texts with non-default charge/multiplicity (charged, open-shell, 2-3 fragments with "
+    "distinct charges, ghost fragment, efp lines) x 15 separator spellings (blank(s), tab(s), comma, comma+blanks, mixtures, doubled commas) applied "
+    "uniformly, with and without a trailing run where the grammar has one, plus random per-gap mixtures; stream B additionally varies the "
+    "separator after the multiplicity on the xyz+ title line. The fixed keyword and separator texts go to the model drivers first."
 )
 LEVEL_TEXT = (
     "proof, partial: the M2 theorems (tokenisation, number/nucleus recognisers accept and decode what the writers print, "
     "read(write r) = project r for xyz/xyz+/psi4 with any number of fragments - on the written lines and on the written TEXT through strip, "
     "filter_comments and the line split -, blank-line/comment/surrounding-whitespace/number-respelling invariance) are proved for all "
     "records (xyz title text assumed free of '#' and newline); that the real regex-driven from_string equals the hand-written line-filter model M1 is established by differential "
-    "correspondence on generated texts only; totality and the end-to-end round trip (through validation, hash) are oracle-checked."
+    "correspondence on generated texts only. END TO END: the whole of from_string - text layer, from_input_arrays field mapping, from_arrays with nucleus "
+    "reconciliation (C06 model over the regenerated periodic table), charge/multiplicity completion (C05 model) and fragments - is now one executable Lean function "
+    "(readMol) tied to the implementation by correspondence on every generated text (validated record compared field by field, error classes, Molecule.from_data fields); "
+    "proved for all records: reading the written text = validating exactly the carried fields; a validated record (fixed point of from_arrays) written as psi4 (one or several fragments) "
+    "comes back unchanged except for the printed coordinates and the text's unit - PARTIAL in one hypothesis (each written nucleus token alone re-derives the atom; checked by the "
+    "correspondence, proved only on examples) and conditional on the printed coordinates passing the closeness screen in the text's unit (false in the known-finding class); xyz+ likewise with "
+    "one more C05 hypothesis; equal 8-decimal float_prep images of the coordinates give equal C11 canonical fields and hash (sufficient printed precision proved for >= 10 decimals, "
+    "8-9 decimals oracle-checked); the composed reader's error type has only the three documented classes plus explicit out-of-scope/model-gap declarations (a property of the model - "
+    "totality of from_string itself remains oracle-checked on generated texts)."
 )
-TECHNIQUE = "Lean 4 proofs about a token/line-level model of writers and reader + differential correspondence of a line-filter model against from_string(return_processed=True) + Python oracle"
+TECHNIQUE = "Lean 4 proofs about a token/line-level model of writers and reader and about its composition with the from_arrays/C06/C05 models + differential correspondence of the line-filter model against from_string(return_processed=True) and of the composed model against from_string()['qm'] / Molecule.from_data + Python oracle"
 
 WS = "\t\n\x0b\x0c\r\x1c\x1d\x1e\x1f "
 ALLOWED = {"MoleculeFormat", "Validation", "NotAnElement"}
@@ -111,6 +155,10 @@ def _qcel():
 
 M1_CASES = []  # (dtype, text, implementation outcome) collected by impl_parse for the model correspondence
 W_CASES = []  # (driver line, implementation text, case)
+MOL_CASES = {}  # (dtype, text) -> Molecule.from_data outcome, collected by impl_molecule (end-to-end correspondence)
+RW_CASES = []  # (driver line, implementation text, from_string outcome of that text, case)
+M1_PRIO = []  # like M1_CASES, for the fixed keyword / separator texts: sent to the drivers FIRST (never cut by the budget)
+_PRIO = [False]
 
 
 def impl_parse(text: str, dtype, collect=True):
@@ -130,18 +178,21 @@ def impl_parse(text: str, dtype, collect=True):
         else:
             r = ("ok", rec, proc)
     if collect and dtype is not None and all(ord(c) < 128 for c in text):
-        M1_CASES.append((dtype, text, r))
+        (M1_PRIO if _PRIO[0] else M1_CASES).append((dtype, text, r))
     return r
 
 
 def impl_molecule(text: str, dtype):
     qcel = _qcel()
     try:
-        return ("ok", qcel.models.Molecule.from_data(text, dtype=dtype))
+        r = ("ok", qcel.models.Molecule.from_data(text, dtype=dtype))
     except BaseException as e:  # noqa
         if isinstance(e, (KeyboardInterrupt, SystemExit)):
             raise
-        return ("err", err_class(e), str(e)[:200])
+        r = ("err", err_class(e), str(e)[:200])
+    if dtype is not None:
+        MOL_CASES[(dtype, text)] = r
+    return r
 
 
 def canon_rec(rec):
@@ -338,6 +389,7 @@ def _roundtrip_case(ctx, out: Outcome, spec, fmt, units_out, prec, want_model=Tr
         out.nontrivial(("A", fmt, text))
     if want_model and all(ord(c) < 128 for c in text):
         W_CASES.append((w_line(m, fmt, units_out, prec), text, case))
+        RW_CASES.append((rw_line(m, fmt, units_out, prec), text, "psi4" if fmt == "psi4" else "xyz+", case))
     f = factor_for(units_out)
     want = (np.asarray(m.geometry).ravel() * f).tolist()
     tol = [0.5 * 10.0 ** (-prec) + 4 * np.spacing(abs(w)) for w in want]
@@ -573,7 +625,9 @@ def relayout(rng, text, fmt, knobs=None):
             if "num" in knobs and not strict:
                 c = respell_number(rng, c)
                 mu = "0" * rng.randint(0, 2) + mu
-            new = c + (sep() if "sep" in knobs else " ") + mu + " " + rest
+            # xyz2 = \A CHGMULT is a prefix match: whatever follows the multiplicity is free text, so ANY separator run may
+            # follow it - in particular a comma directly after the multiplicity
+            new = c + (sep() if "sep" in knobs else " ") + mu + (sep() if "sep" in knobs else " ") + rest
         elif role == "nat" and not toks:
             new = ""
         elif role == "nat":
@@ -778,6 +832,102 @@ def total_case(ctx, out, text, dtype, origin):
     return r if r is not None else ("err", "other:harness", "")
 
 
+
+# --------------------------------------------------------------------------------------
+# stream S: separators on every line kind that has them (molecules with NON-default charge / multiplicity, so that a
+# dropped chg/mult line changes the result)
+
+SEPS_ALL = [" ", "  ", "\t", ",", ", ", " ,", " , ", ",\t", "\t,", "\t\t", ",,", " ,, ", "\t ,\t", ",  ", "    "]
+SEP_BASES = [  # (dtype, text with single blanks between tokens)
+    ("xyz+", "2\n-1 1 HO\nO 0 0 0\nH 0 0 0.96"),
+    ("xyz+", "2 au\n0 3 OHe\nO 0 0 0\n@He 0 0 3"),
+    ("xyz+", "1\n1 2\nHe 0 0 0"),
+    ("xyz+", "3 ang\n1 4 2nd try\nC 0 0 0\nH 0 0 1.1\nH 0 1.1 0"),
+    ("xyz+", "2\n2 1 1e0 x\nBe 0 0 0\n@H 0 0 2"),
+    ("psi4", "1 2\nHe 0 0 0"),
+    ("psi4", "-1 2\n--\n-1 1\nO 0 0 0\nH 0 0 0.96\n--\n0 2\nN 0 0 4\nunits angstrom"),
+    ("psi4", "0 3\n--\n0 2\nH 0 0 0\n--\n0 2\nH_b 0 0 4\nunits bohr\nno_com"),
+    ("psi4", "1 1\n--\n1 1\nLi 0 0 0\n--\n0 1\nGh(He_a) 0 0 3\n--\n0 1\nHe 0 3 0"),
+    ("psi4", "efp h2o 0.5 1 2 3 4 5\n--\n1 2\nHe 0 0 9"),
+    ("psi4", "1 2\nHe 0 0 9\n--\nefp nh3 0 0 0 0 0 0\n--\nEFP c6h6 1 2 3 4 5 6"),
+]
+
+
+def _sep_line_kind(dt, i, toks):
+    """'fixed' (no [\\t ,]+ separators on this line kind), 'sep' (separators between tokens), 'sep+endl' (and a trailing run)"""
+    low = [t.lower() for t in toks]
+    if dt == "xyz+" and i == 0:
+        return "sep"  # xyz1: \\d+[\\s,]*unit
+    if dt == "xyz+" and i == 1:
+        return "sep+endl"  # xyz2: prefix match, anything may follow the multiplicity
+    if not toks or toks == ["--"] or low[0] in ("units", "unit", "no_com", "nocom", "no_reorient", "noreorient", "symmetry"):
+        return "fixed"
+    if low[0] == "efp":
+        return "sep+endl"  # efpxyzabc ends with ENDL
+    return "sep"  # atom lines, CHGMULT lines
+
+
+def sep_variant(dt, text, pick, endl):
+    """text with every separator of every separator-bearing line replaced by pick() and, where the grammar has ENDL /
+    free trailing text, followed by endl()"""
+    out = []
+    for i, ln in enumerate(text.split("\n")):
+        toks = ln.split(" ")
+        kind = _sep_line_kind(dt, i, toks)
+        if kind == "fixed" or len(toks) < 2 and kind != "sep+endl":
+            out.append(ln)
+            continue
+        new = toks[0]
+        for t in toks[1:]:
+            new += pick() + t
+        if kind == "sep+endl":
+            new += endl()
+        out.append(new)
+    return "\n".join(out)
+
+
+def _seplayout_case(ctx, out: Outcome, dt, base, variant):
+    case = {"stream": "seplayout", "dtype": dt, "text": base, "rewritten": variant}
+    out.evaluations += 1
+    out.count("S:separator_rewrites")
+    a = impl_parse(base, dt)
+    b = impl_parse(variant, dt)
+    if a[0] != "ok":
+        out.violations.append(Finding("oracle:layout_separators", case, observed=a[1] if a[0] == "err" else "no molecule", expected="molecule",
+                                      detail="a plain single-blank text of the separator stream is not read"))
+        return
+    out.nontrivial(("S", dt, variant))
+    if b[0] != "ok":
+        out.violations.append(Finding("oracle:layout_separators", case, observed=(b[1] if b[0] == "err" else "no molecule"), expected="same molecule",
+                                      detail=f"separator rewrite is not read: {b[2] if b[0]=='err' else ''}"))
+        return
+    ca, cb = canon_rec(a[1]), canon_rec(b[1])
+    if ca != cb:
+        diff = [k for k in ca if ca[k] != cb[k]]
+        out.violations.append(Finding("oracle:layout_separators", case, observed={k: cb[k] for k in diff}, expected={k: ca[k] for k in diff},
+                                      detail=f"varying [\\t ,]+ separators changes the parse result in {diff}"))
+        return
+    ma, mb = impl_molecule(base, dt), impl_molecule(variant, dt)
+    if ma[0] == "ok" and (mb[0] != "ok" or mb[1].get_hash() != ma[1].get_hash()):
+        out.violations.append(Finding("oracle:layout_separators", case, observed=(mb[1].get_hash() if mb[0] == "ok" else mb[1]), expected=ma[1].get_hash(),
+                                      detail="varying [\\t ,]+ separators changes the Molecule hash"))
+
+
+seplayout_case = _guarded("seplayout", _seplayout_case, lambda dt, base, variant: {"stream": "seplayout", "dtype": dt, "text": base, "rewritten": variant})
+
+
+def sep_stream(ctx, out: Outcome):
+    rng = ctx.rng
+    for dt, base in SEP_BASES:
+        variants = []
+        for sp in SEPS_ALL:  # the same separator everywhere; no / same trailing run
+            variants.append(sep_variant(dt, base, lambda: sp, lambda: ""))
+            variants.append(sep_variant(dt, base, lambda: sp, lambda: sp))
+        for _ in range(ctx.scale(12, 60)):  # mixtures
+            variants.append(sep_variant(dt, base, lambda: rng.choice(SEPS_ALL), lambda: rng.choice(["", "", ",", " ", "\t", ", ", " ,"])))
+        for v in dict.fromkeys(variants):
+            seplayout_case(ctx, out, dt, base, v)
+
 # --------------------------------------------------------------------------------------
 # correspondence with the Lean models
 
@@ -892,7 +1042,7 @@ def run_models(ctx, out: Outcome, budget):
         out.notes.append("Lean driver unavailable: model correspondence skipped, oracle only")
         return
     seen, cases = set(), []
-    for dt, t, r in M1_CASES:
+    for dt, t, r in M1_PRIO + M1_CASES:
         if (dt, t) in seen:
             continue
         seen.add((dt, t))
@@ -913,7 +1063,218 @@ def run_models(ctx, out: Outcome, budget):
         if ml != hx(text):
             out.mismatches.append(Finding("mismatch:M2-writer", case, observed=text, expected=ml[:200], detail="to_string text differs from the Lean writer model"))
     out.evaluations += len(lines)
+    run_e2e(ctx, out, cases)
 
+
+
+# --------------------------------------------------------------------------------------
+# end-to-end correspondence: Driver/C07b.lean = text layer + from_input_arrays mapping + from_arrays (C04) with the
+# C06 reconciler and the C05 charge/multiplicity model, against from_string(...)["qm"] and Molecule.from_data(...)
+
+DRIVER_B = "QcelVerif/Driver/C07b.lean"
+HAIRLINE = "hairline"
+_TC2 = Fraction(0.1) ** 2
+
+
+def _plist(tok, f):
+    if not tok.startswith("L"):
+        raise ValueError(tok)
+    return [] if tok == "L" else [f(x) for x in tok[1:].split(",")]
+
+
+def _pstr(tok):
+    if not tok.startswith("'"):
+        raise ValueError(tok)
+    return tok[1:]
+
+
+def _pbool(tok):
+    return {"T": True, "F": False}[tok]
+
+
+def parse_model_rec(ml):
+    p = ml.split("|")
+    if len(p) != 17 or p[0] != "ok":
+        raise ValueError("not a record line")
+    return {
+        "units": _pstr(p[1]), "geom": _plist(p[2], Fraction), "elea": _plist(p[3], int), "elez": _plist(p[4], int),
+        "elem": _plist(p[5], _pstr), "mass": _plist(p[6], Fraction), "real": _plist(p[7], _pbool), "elbl": _plist(p[8], _pstr),
+        "seps": _plist(p[9], int), "c": int(p[10]), "fc": _plist(p[11], int), "m": int(p[12]), "fm": _plist(p[13], int),
+        "fix_com": _pbool(p[14]), "fix_orientation": _pbool(p[15]), "fix_symmetry": None if p[16] == "~" else _pstr(p[16]),
+    }
+
+
+def _hairline(geom):
+    """some atom pair sits (numerically) on the 0.1 closeness threshold: the implementation decides it in floating
+    point (einsum of float differences against 0.1**2), the model exactly - such texts are not compared"""
+    g = [Fraction(float(x)) for x in geom]
+    n = len(g) // 3
+    for i in range(n):
+        for j in range(i):
+            d2 = sum((g[3 * i + a] - g[3 * j + a]) ** 2 for a in range(3))
+            if abs(d2 - _TC2) < Fraction(1, 10 ** 12):
+                return True
+    return False
+
+
+def e2e_compare(dtype, text, r, ml):
+    """None if the composed model's answer `ml` agrees with from_string's outcome `r`; HAIRLINE; else a description"""
+    if ml == "oos":
+        return None
+    if ml in ("bad-op", "gap"):
+        return f"driver answered {ml!r}"
+    if ml == "empty":
+        return None if r[0] == "empty" else f"model: no atoms (empty record), implementation: {r[0]} {r[1] if r[0]=='err' else ''}"
+    if ml.startswith("err "):
+        cls = ml[4:]
+        if r[0] == "err" and r[1] == cls:
+            return None
+        if cls == "Validation" and r[0] == "ok" and _hairline(r[1]["qm"]["geom"]):
+            return HAIRLINE
+        return f"model: {cls}Error, implementation: {r[0]} {r[1] if r[0]=='err' else ''}"
+    try:
+        f = parse_model_rec(ml)
+    except (ValueError, KeyError, IndexError) as e:
+        return f"cannot read model line: {e!r}"
+    if r[0] != "ok":
+        if r[0] == "err" and r[1] == "Validation" and "too close" in r[2] and _hairline([float(x) for x in f["geom"]]):
+            return HAIRLINE
+        return f"model: validated molecule, implementation: {r[0]} {r[1] if r[0]=='err' else ''}"
+    q = r[1]["qm"]
+    fr = lambda x: Fraction(float(x))  # noqa
+    checks = [
+        ("units", q["units"], f["units"]),
+        ("geom", [fr(x) for x in np.asarray(q["geom"]).ravel()], f["geom"]),
+        ("elea", [int(x) for x in q["elea"]], f["elea"]),
+        ("elez", [int(x) for x in q["elez"]], f["elez"]),
+        ("elem", [str(x) for x in q["elem"]], f["elem"]),
+        ("mass", [fr(x) for x in q["mass"]], f["mass"]),
+        ("real", [bool(x) for x in q["real"]], f["real"]),
+        ("elbl", [str(x) for x in q["elbl"]], f["elbl"]),
+        ("fragment_separators", [int(x) for x in q["fragment_separators"]], f["seps"]),
+        ("molecular_charge", fr(q["molecular_charge"]), Fraction(f["c"])),
+        ("fragment_charges", [fr(x) for x in q["fragment_charges"]], [Fraction(x) for x in f["fc"]]),
+        ("molecular_multiplicity", int(q["molecular_multiplicity"]), f["m"]),
+        ("fragment_multiplicities", [int(x) for x in q["fragment_multiplicities"]], f["fm"]),
+        ("fix_com", bool(q["fix_com"]), f["fix_com"]),
+        ("fix_orientation", bool(q["fix_orientation"]), f["fix_orientation"]),
+        ("fix_symmetry", q.get("fix_symmetry"), f["fix_symmetry"]),
+    ]
+    bad = [k for k, a, b in checks if a != b]
+    if bad:
+        k = bad[0]
+        a, b = [(a, b) for kk, a, b in checks if kk == k][0]
+        return f"validated record differs in {bad}: {k}: implementation {a!r} vs model {b!r}"
+    return None
+
+
+def mol_compare(mm, ml):
+    """Molecule.from_data(text, dtype) against the composed model's record (None = agree)"""
+    try:
+        f = parse_model_rec(ml)
+    except (ValueError, KeyError, IndexError) as e:
+        return f"cannot read model line: {e!r}"
+    if mm[0] != "ok":
+        return f"model: validated molecule, Molecule.from_data: {mm[1]}: {mm[2]}"
+    M = mm[1]
+    fr = lambda x: Fraction(float(x))  # noqa
+    nat = len(f["elem"])
+    bounds = [0] + f["seps"] + [nat]
+    frags = [list(range(bounds[k], bounds[k + 1])) for k in range(len(bounds) - 1)]
+    checks = [
+        ("symbols", [str(x) for x in M.symbols], f["elem"]),
+        ("atomic_numbers", [int(x) for x in M.atomic_numbers], f["elez"]),
+        ("mass_numbers", [int(x) for x in M.mass_numbers], f["elea"]),
+        ("masses", [fr(x) for x in M.masses], f["mass"]),
+        ("real", [bool(x) for x in M.real], f["real"]),
+        ("atom_labels", [str(x) for x in M.atom_labels], f["elbl"]),
+        ("molecular_charge", fr(M.molecular_charge), Fraction(f["c"])),
+        ("molecular_multiplicity", int(M.molecular_multiplicity), f["m"]),
+        ("fragment_charges", [fr(x) for x in M.fragment_charges], [Fraction(x) for x in f["fc"]]),
+        ("fragment_multiplicities", [int(x) for x in M.fragment_multiplicities], f["fm"]),
+        ("fragments", frag_lists(M), frags),
+        ("fix_com", bool(M.fix_com), f["fix_com"]),
+        ("fix_orientation", bool(M.fix_orientation), f["fix_orientation"]),
+        ("fix_symmetry", M.fix_symmetry, f["fix_symmetry"]),
+    ]
+    bad = [k for k, a, b in checks if a != b]
+    if bad:
+        k = bad[0]
+        a, b = [(a, b) for kk, a, b in checks if kk == k][0]
+        return f"Molecule differs from the model record in {bad}: {k}: {a!r} vs model {b!r}"
+    # geometry: stored in bohr, rounded to 8 decimals at construction (molecule.py:381-384) - compared with the exact
+    # product under that tolerance (the rounding itself is C11's model)
+    fac = Fraction(1) if f["units"] == "Bohr" else Fraction(1.0 / _qcel().constants.bohr2angstroms)
+    got = np.asarray(M.geometry).ravel().tolist()
+    if len(got) != len(f["geom"]):
+        return "Molecule geometry has a different length"
+    for g, w in zip(got, f["geom"]):
+        w = w * fac
+        if not np.isfinite(g):  # the unit conversion overflowed (|x| within a factor 2 of the largest double): not compared
+            continue
+        if g == 0.0 and abs(w) < Fraction(5151, 10 ** 10):
+            continue  # float_prep's zero band: a coordinate whose 8-decimal rounding is below 5**-9 is stored as 0 (C11/C16 known finding)
+        if abs(Fraction(g) - w) > Fraction(5000001, 10 ** 15) + abs(w) * Fraction(1, 10 ** 14):
+            return f"Molecule geometry {g!r} is not the model's {float(w)!r} [bohr] rounded to 8 decimals"
+    return None
+
+
+def _hx_list(xs):
+    return "L" + ",".join(hx(str(x)) for x in xs)
+
+
+def rw_line(m, fmt, units_out, prec):
+    """driver line `RW`: the validated record as the writers see it + CPython's printed numbers"""
+    f = factor_for(units_out)
+    geom = (np.asarray(m.geometry) * f).ravel()
+    frs = frag_lists(m)
+    tb = lambda b: "T" if b else "F"  # noqa
+    return "|".join([
+        "RW", "psi4" if fmt == "psi4" else "xyz", tb(units_out == "Bohr"), hx(m.name),
+        _hx_list(m.symbols), "L" + ",".join(tb(bool(x)) for x in m.real), _hx_list(m.atom_labels),
+        "L" + ",".join(str(fr[0]) for fr in frs[1:]), str(int(m.molecular_charge)),
+        "L" + ",".join(str(int(x)) for x in m.fragment_charges), str(int(m.molecular_multiplicity)),
+        "L" + ",".join(str(int(x)) for x in m.fragment_multiplicities), tb(m.fix_com), tb(m.fix_orientation),
+        "L" + ",".join("{:.{p}f}".format(float(x), p=prec) for x in geom),
+    ])
+
+
+def run_e2e(ctx, out: Outcome, cases):
+    """cases: the (dtype, text, from_string outcome) triples already sent to the M1 driver"""
+    lines = [f"R|{dt}|{hx(t)}" for dt, t, _ in cases] + [w[0] for w in RW_CASES]
+    if not lines:
+        return
+    res = ctx.run_model(DRIVER_B, lines)
+    for (dt, t, r), ml in zip(cases, res):
+        kind = "oos" if ml == "oos" else "empty" if ml == "empty" else ml.replace(" ", ":") if ml.startswith("err") else "molecule" if ml.startswith("ok|") else ml
+        out.count("E2E:" + kind)
+        d = e2e_compare(dt, t, r, ml)
+        if d == HAIRLINE:
+            out.count("E2E:hairline_not_compared")
+            continue
+        if d is not None:
+            out.mismatches.append(Finding("mismatch:E2E", {"stream": "m1", "text": t, "dtype": dt}, observed=(r[0], r[1] if r[0] == "err" else None), expected=ml[:400], detail=d))
+            continue
+        if ml.startswith("ok|") and (dt, t) in MOL_CASES:
+            out.count("E2E:molecule_from_data_compared")
+            d = mol_compare(MOL_CASES[(dt, t)], ml)
+            if d is not None:
+                out.mismatches.append(Finding("mismatch:E2E-molecule", {"stream": "m1", "text": t, "dtype": dt}, observed=str(MOL_CASES[(dt, t)][1])[:200], expected=ml[:400], detail=d))
+    for (line, text, rd, case), ml in zip(RW_CASES, res[len(cases):]):
+        out.count("E2E:write_then_read")
+        parts = ml.split("|", 1)
+        if len(parts) != 2:
+            out.mismatches.append(Finding("mismatch:E2E-writer", case, observed=text, expected=ml[:200], detail="driver could not read the RW line"))
+            continue
+        if parts[0] != hx(text):
+            out.mismatches.append(Finding("mismatch:E2E-writer", case, observed=text, expected=parts[0][:200], detail="to_string text differs from writeMol of the validated record"))
+            continue
+        d = e2e_compare(rd, text, impl_parse(text, rd, collect=False), parts[1])
+        if d == HAIRLINE:
+            out.count("E2E:hairline_not_compared")
+        elif d is not None:
+            out.mismatches.append(Finding("mismatch:E2E", case, observed=text, expected=parts[1][:400], detail="readMol (writeMol r): " + d))
+    out.evaluations += len(lines)
 
 # --------------------------------------------------------------------------------------
 # run
@@ -931,7 +1292,10 @@ def _run(ctx: Ctx, out: Outcome):
     rng = ctx.rng
     gen_spec.els = _elements()
     M1_CASES.clear()
+    M1_PRIO.clear()
     W_CASES.clear()
+    MOL_CASES.clear()
+    RW_CASES.clear()
     nmol = ctx.scale(220, 2200)
     valid = []  # (text, fmt, readers)
     for _ in range(nmol):
@@ -977,7 +1341,12 @@ def _run(ctx: Ctx, out: Outcome):
         r = total_case(ctx, out, t, dt, "soup")
         if len(out.samples) < 6 and r[0] == "ok":
             out.sample({"stream": "C", "dtype": dt, "text": t, "outcome": "molecule"})
-    keyword_stream(ctx, out)
+    _PRIO[0] = True
+    try:
+        keyword_stream(ctx, out)
+        sep_stream(ctx, out)
+    finally:
+        _PRIO[0] = False
     close_pair_stream(ctx, out)
     run_models(ctx, out, ctx.scale(16000, 120000))
     out.exhaustive = False
@@ -1063,7 +1432,10 @@ def replay(ctx: Ctx, case) -> Outcome:
     out = Outcome()
     gen_spec.els = _elements()
     M1_CASES.clear()
+    M1_PRIO.clear()
     W_CASES.clear()
+    MOL_CASES.clear()
+    RW_CASES.clear()
     with contextlib.redirect_stdout(io.StringIO()), warnings.catch_warnings(), np.errstate(all="ignore"):
         warnings.simplefilter("ignore")
         st = case.get("stream")
@@ -1077,6 +1449,8 @@ def replay(ctx: Ctx, case) -> Outcome:
             total_case(ctx, out, case["text"], case["dtype"], "replay")
         elif st == "closepair":
             closepair_case(ctx, out, case)
+        elif st == "seplayout":
+            seplayout_case(ctx, out, case["dtype"], case["text"], case["rewritten"])
         elif st == "m1":
             impl_parse(case["text"], case["dtype"])
             if case["dtype"] in ("xyz", "xyz+", "psi4"):
